@@ -374,3 +374,4 @@ from .common import lazy  # noqa: E402
 RULES += [lazy("C06", "r3_retry_and_ack", "the listener's memory of acknowledged Syns must not shrink: a retried transfer would be stored / announced twice"),
           lazy("C04", "r1_purge_guard", "a requested output is not purged while its fetch is outstanding"),
           lazy("C02", "r9_executor_routing", "a purge reaches the data server (which waits for running transfers and invalidates pending ones), never the shm store directly")]
+RULES.append(lazy("C06", "r7b_acked_container_never_forgets", "a retried payload / command whose Syn was forgotten is stored or executed twice"))
